@@ -1,8 +1,8 @@
 """Inventory of explicit panic sites (unwrap / expect / panic! / unreachable! / assert!) in the parts of
 /repo that reply() can reach. The committed inventory (harness/panic_inventory.json) maps every site to
 its disposition: the model's Panic branch that represents it, or the reason it cannot fire. A site that
-is new, changed or gone breaks the C01 correspondence (the model no longer accounts for every way the
-code can abort)."""
+is new (or whose text changed) breaks the C01 correspondence (the model no longer accounts for every way the
+code can abort); a site that has disappeared is only logged."""
 import os, re, json, sys
 from common import *
 
@@ -45,16 +45,30 @@ def scan(repo=REPO):
     return sites
 
 
+def _bag(keys):
+    """multiset of (file, site text): the enclosing function and the occurrence number are not part of a site's identity,
+    so that moving a site into a helper function of the same file is not reported"""
+    bag = {}
+    for k in keys:
+        f, fn, text = k.split("|", 2)
+        text = re.sub(r"#\d+$", "", text).rstrip(" ;,")          # formatting of the statement's end is not identity
+        bag[(f, text)] = bag.get((f, text), 0) + 1
+    return bag
+
+
 def compare():
-    """-> list of problem strings (empty when the code's sites are exactly the inventoried ones)."""
+    """-> list of problem strings (empty when every site of the code is accounted for by the inventory)."""
     inv = json.load(open(INVENTORY))
-    cur = set(scan())
-    known = set(inv)
+    cur, known = _bag(scan()), _bag(inv)
     out = []
-    for k in sorted(cur - known):
-        out.append("panic site not in the inventory (no model branch / discharge accounts for it): " + k)
-    for k in sorted(known - cur):
-        out.append("inventoried panic site no longer present (the model's account of it is stale): " + k)
+    for k in sorted(cur):
+        if cur[k] > known.get(k, 0):
+            out.append("panic site not in the inventory (no model branch / discharge accounts for it): %s|%s" % k)
+    # a site that is gone cannot abort the process any more: information only (the model's Panic branch for it is
+    # then unreachable in the code, which no C01 statement depends on)
+    for k in sorted(known):
+        if known[k] > cur.get(k, 0):
+            log("C01 inventory: site no longer present in the code: %s|%s" % k)
     return out
 
 
